@@ -724,6 +724,9 @@ func constFits(p *Program, fi int, t *Type, c *Const) bool {
 		case 'b':
 			return k == 'b' || k == 'i' || k == 'd'
 		case 'v':
+			if k == 'i' {
+				return true // thriftgo accepts an enum value where an integer is expected (`const i32 X = Level.NORMAL`)
+			}
 			d := deref(p, t)
 			return k == 'e' && d.Named.File == r.file && d.Named.Name == r.name
 		case 'c':
